@@ -100,3 +100,36 @@ Example C09_rebid_then_cancel :
   bal (bank_of s) 4%N ujkl = 100000000 - 50 /\
   bal (bank_of s') rns_mod ujkl = 0 /\ bids s' = [] /\ bal (bank_of s') 4%N ujkl = 100000000.
 Proof. vm_compute. repeat split; reflexivity. Qed.
+
+(* ---------------------------------------------------------------------------------------------
+   Tie to the code by translation + proof: the functions below are GENERATED on every run from /repo's
+   current Go source (translator/gen_gofuncs.go -> Gen/GoRnsOwn.v); the theorems say that the hand-written model the
+   property theorems above are about computes what the generated function computes, for all arguments. *)
+From Coq Require Import String.
+From JK Require Import Base.GoSem Gen.GoRnsOwn Proofs.GoTieRnsOwn.
+
+(* the escrow handlers, generated from the current source: a bid escrows the new amount first, then refunds a bid it
+   replaces, then writes the record; a cancellation refunds the stored amount to the sender and removes the record;
+   nothing is written when a transfer fails.  The model's steps are the interpretations of the generated handlers *)
+Theorem C09_code_tie_AddBid_and_CancelOneBid :
+  forall s (sg : addr) n price,
+    (let idx := (canon sg, nm_full n) in
+     let old := get_bid s idx in
+     let b1 := match price with Some p => send (bank_of s) (fst sg) rns_mod p | None => None end in
+     let b2 := match b1, old with Some b, Some o => send b rns_mod (fst sg) (b_price o) | Some b, None => Some b | None, _ => None end in
+     do_bid s sg n price
+     = if ok_of (gen_AddBid true (GoTieRnsOwn.is_some price) (GoTieRnsOwn.is_some b1) (GoTieRnsOwn.is_some old) true (GoTieRnsOwn.is_some b2))
+       then match b2, price with
+            | Some b, Some p => Some (set_bids (set_bank s b) (aset bidkey_eqb (bids s) idx {| b_bidder := canon sg; b_price := p |}))
+            | _, _ => None
+            end
+       else None) /\
+    (let idx := (sg, nm_full n) in
+     let bd := get_bid s idx in
+     let b1 := match bd with Some x => send (bank_of s) rns_mod (fst sg) (b_price x) | None => None end in
+     do_cancel s sg n
+     = if ok_of (gen_CancelOneBid true (GoTieRnsOwn.is_some bd) true (GoTieRnsOwn.is_some b1))
+       then match b1 with Some b => Some (set_bids (set_bank s b) (adel bidkey_eqb (bids s) idx)) | None => None end
+       else None).
+Proof. intros s sg n price. exact (conj (do_bid_is_the_interpretation s sg n price) (do_cancel_is_the_interpretation s sg n)). Qed.
+Print Assumptions C09_code_tie_AddBid_and_CancelOneBid.
